@@ -1968,3 +1968,93 @@ _jobs_before_leafclear = jobs
 
 def jobs(tier):
     return _jobs_before_leafclear(tier) + [(h_leaf_clear, (c,), 900) for c in LEAF_CLEAR]
+
+# ------------------------------------------------------------------------------------------------ C14: UnionBuilder::clear
+@guard
+def h_union_clear(nmembers, active):
+    """UnionBuilder::clear from any state (tags / index of any length, `active`: a member is in the middle of a list / record): afterwards no
+    tags and no index entries are left, every member builder has been cleared, and no member is active any more - the builder is in its initial
+    state, what is appended next is a new top-level entry"""
+    from .cpp01 import struct_of
+    slots, nslots = builder_slots()
+    mod = module_of(UNB)
+    fo, sz, al, fields = mod.types.struct_layout(struct_of(mod, '_ZN7awkward12UnionBuilder7integerEl'))
+    stubs = dict(COMMON_STUBS)
+    stubs.update(_child_stubs(slots))
+    cleared = []
+
+    def s_child_clear(eng, fr, ins, st, name, argv):
+        cleared.append((st.pc, argv[0]))
+        return None
+    stubs['vf$slot%d' % slots['5clearEv']] = s_child_clear
+    m = MCtx([UNB, GB, 'src/libawkward/builder/ArrayBuilderOptions.cpp', 'src/libawkward/kernel-dispatch.cpp'], unwind=nmembers + 10, stubs=stubs)
+    m.record('fakevt', {8 * j: (Ptr(('func', 'vf$slot%d' % j), 0), 8) for j in range(nslots)}, const=True)
+    ntags = m.bv('ntags')
+    m.assume(ntags >= 0, ntags <= 2 ** 20)
+    cells = {}
+    for i in range(nmembers):
+        m.record('kid%d' % i, {0: (Ptr('fakevt', 0), 8), 8: (NULL, 8), 16: (NULL, 8), 32: (m.bv('kidlen%d' % i), 8)})
+        cells[16 * i] = (Ptr('kid%d' % i, 0), 8); cells[16 * i + 8] = (NULL, 8)
+    m.record('kidsbuf', cells, const=True)
+    nb = 16 * nmembers
+    st0 = State({}, m.mem, z3.BoolVal(True))
+    vt = m.eng.global_ptr(st0, '@_ZTVN7awkward12UnionBuilderE', mod)
+    tg = m.array('tags', ('i', 8), ntags + 2)
+    ix = m.array('index', ('i', 64), ntags + 2)
+    m.record('ub_ctrl', {0: (NULL, 8), 8: (z3.BitVecVal(1, 32), 4), 12: (z3.BitVecVal(1, 32), 4)})
+    cur = m.bv('current', 8)
+    if active:
+        m.assume(cur >= 0, cur < nmembers)
+    else:
+        m.assume(cur == -1)
+    ub = {0: (Ptr(vt.obj, 16), 8), 8: (Ptr('ub', 0), 8), 16: (Ptr('ub_ctrl', 0), 8), fo[1]: (BV(8), 8), fo[1] + 8: (z3.FPVal(1.5, z3.Float64()), 8)}
+    for base, buf in ((fo[2], tg), (fo[3], ix)):
+        ub.update({base: (BV(8), 8), base + 8: (z3.FPVal(1.5, z3.Float64()), 8), base + 16: (buf, 8), base + 24: (NULL, 8), base + 32: (ntags, 8), base + 40: (ntags + 2, 8)})
+    ub.update({fo[4]: (Ptr('kidsbuf', 0) if nmembers else NULL, 8), fo[4] + 8: (Ptr('kidsbuf', nb) if nmembers else NULL, 8), fo[4] + 16: (Ptr('kidsbuf', nb) if nmembers else NULL, 8), fo[5]: (cur, 1)})
+    this = m.record('ub', ub)
+    out = m.call('_ZN7awkward12UnionBuilder5clearEv', [this])
+    o_ub = out.mem.o['ub']
+    obls = [('clear does not raise', out.raised),
+            ('no tags and no index entries are left', z3.Or(o_ub.cells[fo[2] + 32][0] != 0, o_ub.cells[fo[3] + 32][0] != 0)),
+            ('no member is active after clear', o_ub.cells[fo[5]][0] != z3.BitVecVal(-1, 8))]
+    for i in range(nmembers):
+        hit = [pc for pc, p in cleared if any(q.obj == 'kid%d' % i for g, q in ptr_cases(p))]
+        obls.append(('member %d is cleared' % i, z3.Not(z3.Or(hit + [z3.BoolVal(False)]))))
+
+    def replay(model, ent_):
+        import subprocess, os
+        drv = r'''
+#include <cstdio>
+#include <string>
+#include "awkward/builder/ArrayBuilder.h"
+#include "awkward/builder/ArrayBuilderOptions.h"
+#include "awkward/Content.h"
+using namespace awkward;
+int main() {
+  // a union of numbers and lists; clear() while a list (a member of the union) is open; then a plain number
+  ArrayBuilder b(ArrayBuilderOptions(8, 1.5));
+  b.integer(1); b.beginlist(); b.integer(2); b.clear(); b.integer(7);
+  std::string now = b.snapshot().get()->tojson(false, 10);
+  printf("integer(1); beginlist; integer(2); clear(); integer(7) gives %s\n", now.c_str());
+  return now == "[7]" ? 0 : 1;
+}
+'''
+        try:
+            exe = fullnative_link(drv)
+        except Exception as e:      # noqa
+            return False, 'replay driver did not build: %s' % str(e)[-600:], {}
+        r = subprocess.run([exe], capture_output=True, text=True, timeout=30,
+                           env=dict(os.environ, ASAN_OPTIONS='detect_leaks=0', UBSAN_OPTIONS='halt_on_error=1:exitcode=87'), errors='replace')
+        payload = dict(native=r.stdout.strip())
+        if r.returncode != 0:
+            return True, 'a union builder cleared while one of its members is open: %s' % (r.stdout.strip() or r.stderr[-200:]), payload
+        return False, 'native builder agrees (%s)' % r.stdout.strip(), payload
+    return mdischarge(m, 'UnionBuilder::clear %d members, %s' % (nmembers, 'one of them active' if active else 'none active'), obls, [], replay=replay, prefer=[ntags <= 4],
+                      extra=dict(bounds='%d opaque member builders, any number of tags / index entries up to 2^20, the active member symbolic' % nmembers))
+
+
+_jobs_before_unionclear = jobs
+
+
+def jobs(tier):
+    return _jobs_before_unionclear(tier) + [(h_union_clear, a, 900) for a in ((2, True), (2, False), (3, True), (0, False))]
